@@ -625,6 +625,26 @@ def check_C13(tier, rng, rep):
     return rep.finish(tier, rule="T-class operator rows and simulated programs with move/scale under int/Fraction realisations (integers, denominators up to 1e4 with derived values below 1e9, rational rotation): every control point of every result must be the exact rational image of its grid point with int/Fraction type, moments the exact rationals; the mixed int/Fraction/float realisation checks closeness and well-formedness only", exhaustive=not quick)
 
 
+
+def check_C14(tier, rng, rep):
+    """curve intersection reports exactly the crossings"""
+    from . import queries
+    quick = tier == "quick"
+    for un in (["U2cross", "U2comb", "U3hole"] if quick else U2 + U3):
+        rep.add_tlc("PlaneThm/" + un, models.plane_thm(un, ["ThmXings", "ThmParity"]))
+    jobs = []
+    reals = POLY + CURVED + ["poly-frac-dense", "sim-far6-float", "sim-km-float"] + ([] if quick else ["quad-frac"])
+    for un in U2 + U3:
+        rows = [r for r in models.pair_rows(un) if r["op"] == "or" and r["cls"] == "T" and r["a"] not in (0,) and r["b"] not in (0,) and (r["xing"] or r["a"] == r["b"])]
+        rows = runner.sample(rows, 36 if quick else len(rows), rng)
+        for k, row in enumerate(rows):
+            for rn in ([reals[k % len(reals)]] if quick else (reals if un in U2 else [reals[k % len(reals)]])):
+                jobs.append((un, rn, row, {}))
+    res = runner.pool_map(queries.inter_case, jobs)
+    rep.add_results("inter", res, nontrivial=lambda r: r["row"]["a"] != r["row"]["b"])
+    return rep.finish(tier, rule="T-class ordered pairs of regions whose boundaries cross (and equal pairs for the identical-segment encoding) x realisation (degree 1-3, all numeric types, far from the origin): every pair of boundary curves; reported tuples against the specification's crossing parameters (exact for rational polygons, 1e-6 otherwise), range, A(u)=B(v), operand swap, A & B, flags, crossings at vertices after both curves were split", exhaustive=not quick)
+
+
 def check_C19(tier, rng, rep):
     """direct composite constructors equal operator results"""
     from . import queries
@@ -643,7 +663,7 @@ def check_C19(tier, rng, rep):
 
 
 CHECKS = {"C01": check_C01, "C02": check_C02, "C03": check_C03, "C04": check_C04, "C05": check_C05, "C06": check_C06,
-          "C07": check_C07, "C08": check_C08, "C09": check_C09, "C10": check_C10, "C11": check_C11, "C12": check_C12, "C13": check_C13, "C19": check_C19}
+          "C07": check_C07, "C08": check_C08, "C09": check_C09, "C10": check_C10, "C11": check_C11, "C12": check_C12, "C13": check_C13, "C14": check_C14, "C19": check_C19}
 
 
 
@@ -660,6 +680,11 @@ def main(argv=None):
     rng = random.Random(runner.seed() * 7919 + sum(map(ord, a.prop)))
     rep = runner.Report(a.prop)
     try:
+        # specification tables are produced (or read from the cache) once, in the parent,
+        # before any worker process is forked
+        for un in U2 + U3:
+            replay._tables(un)
+            models.pair_rows(un)
         rc = CHECKS[a.prop](t, rng, rep)
     except tlc.MachineryError as ex:
         sys.stderr.write("MACHINERY FAILURE: %s\n" % ex)
